@@ -240,6 +240,26 @@ func (b *Broker) KillConns() {
 	}
 }
 
+// WaitConnsClosed waits (real time, polling) until every accepted connection
+// has been closed by the peer and fully read, or d elapsed. Use it after
+// closing the client when requests without responses (acks=0) may still be in
+// flight towards the broker.
+func (b *Broker) WaitConnsClosed(d time.Duration) bool {
+	deadline := time.Now().Add(d)
+	for {
+		b.mu.Lock()
+		n := len(b.conns)
+		b.mu.Unlock()
+		if n == 0 {
+			return true
+		}
+		if time.Now().After(deadline) {
+			return false
+		}
+		time.Sleep(200 * time.Microsecond)
+	}
+}
+
 // Requests returns a snapshot of every request header seen so far, in arrival order.
 func (b *Broker) Requests() []Header {
 	b.mu.Lock()
